@@ -54,11 +54,24 @@ def build_coq(clean=False, target=None):
                                text=True, timeout=120)
             if r.returncode != 0:
                 return False, r.stdout + r.stderr
-        cmd = ["make", "-j16"] + ([target] if target else [])
+        cmd = ["make", "-k", "-j16"] + ([target] if target else [])
         r = subprocess.run(cmd, cwd=COQ, capture_output=True, text=True, timeout=3000)
-        return r.returncode == 0, r.stdout[-6000:] + r.stderr[-6000:]
+        return r.returncode == 0, r.stdout[-8000:] + r.stderr[-12000:]
     finally:
         lk.close()
+
+
+def failed_files(make_output):
+    """Source files (relative to coq/, without extension) whose compilation failed in a `make -k` run."""
+    return sorted(set(re.findall(r"\*\*\* \[[^\]]*?:\s*([\w/]+)\.vo\] Error", make_output)))
+
+
+T_PREFIXES = ("Generated/", "Numeric/Atoms", "Numeric/RipassoFacts", "Numeric/Rescale", "Props/C02", "Props/C12",
+              "Props/C13", "Props/C14n")
+
+
+def is_tfile(f):
+    return f.startswith(T_PREFIXES)
 
 
 def forbidden_scan():
@@ -82,8 +95,18 @@ def forbidden_scan():
     return hits
 
 
-def compile_props(pid):
-    """Recompile Props/<pid>.v unconditionally; return (ok, theorems, {theorem: axioms}, log)."""
+def compile_props(pids):
+    """Recompile the Props files of a property; merged (ok, theorems, {theorem: axioms}, log, printed)."""
+    res = [compile_props_one(p) for p in pids]
+    ax = {}
+    for r in res:
+        ax.update(r[2])
+    return (all(r[0] for r in res), [t for r in res for t in r[1]], ax, "\n".join(r[3] for r in res),
+            [t for r in res for t in r[4]])
+
+
+def compile_props_one(pid):
+    """Recompile Props/<pid>.v unconditionally; return (ok, theorems, {theorem: axioms}, log, printed)."""
     src = os.path.join(COQ, "Props", pid + ".v")
     text = open(src).read()
     theorems = re.findall(r"^\s*(?:Theorem|Corollary)\s+([A-Za-z0-9_']+)", text, re.M)
@@ -231,38 +254,56 @@ def main(argv):
 
     # ---- 1. translation + Coq build -------------------------------------------------------
     ctx = {"pid": pid, "tier": a.tier, "seed": seed, "workdir": workdir, "report": report, "notes": notes, "log": log}
-    obligations = []
-    pre = getattr(mod, "pre_build", None)
-    if pre:
-        pre(ctx)                         # regenerates coq/Generated/*.v from /repo (fail closed -> reports)
+    from . import numeric
+    failed_gen, tlog = numeric.run_translator()          # regenerates coq/Generated/*.v from /repo (fail closed)
     ok, out = build_coq()
-    if not ok:
-        handler = getattr(mod, "on_build_failure", None)
-        if handler and handler(ctx, out):
-            pass                        # a generated obligation broke: handled (search + report) by the module
-        else:
-            log("Coq build failed (hand-written development):\n" + out)
-            return 2
+    failed = failed_files(out) if not ok else []
+    hand_failed = [f for f in failed if not is_tfile(f)]
+    if (not ok and not failed) or hand_failed:
+        log("Coq build failed (hand-written development):\n" + out[-6000:])
+        return 2
     hits = forbidden_scan()
     if hits:
         log("forbidden vernacular found:\n" + "\n".join(hits))
         return 2
-    ok, theorems, axioms, plog, printed = compile_props(pid)
+    props_files = getattr(mod, "PROPS_FILES", [pid])
+    t_files = getattr(mod, "T_FILES", [])
+    broken = []                                          # obligations of tie T that no longer check
+    for g in getattr(mod, "T_GEN", []):
+        if g in failed_gen:
+            broken.append(f"translation of {g} aborted (source outside the supported subset): " +
+                          " ".join(l for l in tlog.splitlines() if g in l)[:300])
+    broken += [f"{f}.v no longer compiles against the regenerated definitions" for f in failed if f in t_files]
+    ok, theorems, axioms, plog, printed = compile_props(props_files)
     allowed = set(getattr(mod, "ALLOWED_AXIOMS", []))
     if not ok:
-        handler = getattr(mod, "on_props_failure", None)
-        if not (handler and handler(ctx, plog)):
+        if t_files:
+            if not broken:
+                m = re.search(r"Error:(.*)", plog, re.S)
+                broken.append(f"Props/{'/'.join(props_files)}.v no longer compiles: " + (m.group(1)[:300] if m else plog[-300:]))
+        else:
             log(f"Props/{pid}.v does not compile:\n" + plog)
-            if not violations:
-                return 2
+            return 2
+    if broken:
+        found = []
+        try:
+            found = mod.search_failing_input(ctx) or []
+        except Exception as e:  # noqa: BLE001
+            notes.append(f"search for a failing input raised {type(e).__name__}: {e}")
+        if found:
+            for sig, payload in found[:3]:
+                report(sig, dict(payload, broken_obligations=broken), True)
+        else:
+            report("proof obligation broken: " + broken[0][:160], {"broken_obligations": broken, "translator_log": tlog[-2000:],
+                                                                  "coq_log": (out[-3000:] if failed else plog[-3000:])}, False)
     used_axioms = sorted({x for l in axioms.values() for x in l})
     bad_ax = [x for x in used_axioms if x not in allowed]
     if bad_ax:
-        log(f"Props/{pid}.v depends on axioms outside the allow-list: {bad_ax}")
+        log(f"Props of {pid} depend on axioms outside the allow-list: {bad_ax}")
         return 2
     missing_pa = [t for t in theorems if t not in printed]
-    if missing_pa:
-        log(f"Props/{pid}.v: theorems without Print Assumptions: {missing_pa}")
+    if missing_pa and ok:
+        log(f"Props of {pid}: theorems without Print Assumptions: {missing_pa}")
         return 2
     obligations = list(theorems)
     discharged = len(theorems) if ok else 0
@@ -366,7 +407,8 @@ def main(argv):
     cov = {
         "obligations": len(obligations) + extra_cov.get("obligations", 0),
         "discharged": discharged + extra_cov.get("discharged", 0),
-        "checker_cmd": f"cd /verif/coq && make -j16 && coqc -Q . BB Props/{pid}.v   (run by ./check {pid}; Print Assumptions parsed)",
+        "checker_cmd": "cd /verif && python3 translator/py2coq.py --all && cd coq && make -j16 && " +
+                       " && ".join(f"coqc -Q . BB Props/{p}.v" for p in props_files) + f"   (run by ./check {pid}; Print Assumptions parsed)",
         "trusted_base": BASE_TRUST + list(getattr(mod, "TRUST", [])) +
                         [f"axioms reported by Print Assumptions this run: {used_axioms or 'none (closed under the global context)'}"],
         "theorems": theorems,
